@@ -229,53 +229,23 @@ func runC17(c *core.Ctx) {
 	}
 }
 
-// c17effect checks the request closure.
+// c17effect checks the request closure. The request, the serializer call and the failure response may sit
+// in the closure itself or in unexported helpers it calls (values are then traced through the helpers'
+// parameters and results).
 func c17effect(p *core.Prog, g, perCall, eff, fold *ssa.Function, doNew map[string]*ssa.Function) (bool, string) {
-	var req *ssa.Call
-	nReq := 0
-	core.Instrs(eff, func(ins ssa.Instruction) {
-		if call, ok := ins.(*ssa.Call); ok {
-			if h := core.Callee(&call.Call); h != nil && (h == doNew["DoNewRequest"] || h == doNew["DoNewRequestWithBodyOptions"]) {
-				req, nReq = call, nReq+1
-			}
-		}
-	})
-	if nReq != 1 {
-		return false, fmt.Sprintf("the effect contains %d request calls (must be 1)", nReq)
-	}
-	// serializer call (dynamic call of the captured serializer) if any
-	var ser *ssa.Call
-	core.Instrs(eff, func(ins ssa.Instruction) {
-		if call, ok := ins.(*ssa.Call); ok && core.Callee(&call.Call) == nil && !call.Call.IsInvoke() {
-			if _, isB := call.Call.Value.(*ssa.Builtin); !isB {
-				if fv := core.Path(call.Call.Value); strings.Contains(strings.ToLower(fv), "serializer") {
-					ser = call
-				}
-			}
-		}
-	})
-	withBody := core.Callee(&req.Call) == doNew["DoNewRequestWithBodyOptions"]
-	// once: exactly one on paths that do not return on the serializer-error edge
-	serErrEdge := func(b *ssa.BasicBlock) bool {
-		if ser == nil {
+	isReq := func(ins ssa.Instruction) bool {
+		call, ok := ins.(*ssa.Call)
+		if !ok {
 			return false
 		}
-		for _, m := range core.EdgeCmps(b) {
-			if ex, ok := m.X.(*ssa.Extract); ok && ex.Tuple == ssa.Value(ser) && m.Op == token.NEQ && core.IsNilConst(m.Y) {
-				return true
-			}
-		}
-		return false
+		h := core.Callee(&call.Call)
+		return h != nil && (h == doNew["DoNewRequest"] || h == doNew["DoNewRequestWithBodyOptions"])
 	}
-	min, max := core.PathCount(eff, func(ins ssa.Instruction) int {
-		if ins == ssa.Instruction(req) {
-			return 1
-		}
-		return 0
-	}, serErrEdge)
-	if min != 1 || max != 1 {
-		return false, fmt.Sprintf("the request is issued %d..%d times per evaluation on paths without a serializer error (must be exactly 1)", min, max)
+	reqs := core.DeepFind(p, eff, isReq)
+	if len(reqs) != 1 {
+		return false, fmt.Sprintf("the effect contains %d request calls (must be 1)", len(reqs))
 	}
+	req, rstack := reqs[0].Ins.(*ssa.Call), reqs[0].Stack
 	// captured value helper: variable name → value bound in the enclosing functions
 	capt := func(name string) ssa.Value {
 		if v := capturedBinding(perCall, eff, name); v != nil {
@@ -288,22 +258,90 @@ func c17effect(p *core.Prog, g, perCall, eff, fold *ssa.Function, doNew map[stri
 					return capturedBinding(g, perCall, fv.Name())
 				}
 			}
-			if a, ok := v.(*ssa.Alloc); ok {
-				_ = a
-			}
 			return v
 		}
 		return nil
 	}
+	// toG: a value of some frame expressed as a value of the constructor / per-call function where possible
+	toG := func(v ssa.Value, stack []*ssa.Call) ssa.Value {
+		v, st := core.Up(core.Unwrap(v), stack)
+		v = core.Unwrap(v)
+		if len(st) != 0 {
+			return v
+		}
+		if cv := capt(core.Path(v)); cv != nil {
+			return cv
+		}
+		return v
+	}
+	isSerParam := func(v ssa.Value) bool {
+		prm, ok := v.(*ssa.Parameter)
+		if !ok || prm.Parent() != g {
+			return false
+		}
+		return strings.Contains(strings.ToLower(prm.Name()), "serializer") || strings.Contains(prm.Type().String(), "Serializer")
+	}
+	// serializer call: dynamic call of the constructor's serializer parameter
+	var ser *ssa.Call
+	var sstack []*ssa.Call
+	for _, f := range core.DeepFind(p, eff, func(ins ssa.Instruction) bool {
+		call, ok := ins.(*ssa.Call)
+		if !ok || core.Callee(&call.Call) != nil || call.Call.IsInvoke() {
+			return false
+		}
+		_, isB := call.Call.Value.(*ssa.Builtin)
+		return !isB
+	}) {
+		call := f.Ins.(*ssa.Call)
+		if isSerParam(toG(call.Call.Value, f.Stack)) {
+			ser, sstack = call, f.Stack
+		}
+	}
+	withBody := core.Callee(&req.Call) == doNew["DoNewRequestWithBodyOptions"]
+	// leaves of a value: every one is nil/"" or the given result of the serializer call
+	fromSer := func(v ssa.Value, stack []*ssa.Call, idx int, neutral func(ssa.Value) bool) (all, some bool) {
+		all = true
+		for _, lf := range core.Origins(p, v, stack) {
+			if neutral(lf.Val) {
+				continue
+			}
+			if ex, ok := lf.Val.(*ssa.Extract); ok && ser != nil && ex.Tuple == ssa.Value(ser) && (ex.Index == idx || idx < 0 && ex.Index == ser.Call.Signature().Results().Len()-1) {
+				some = true
+				continue
+			}
+			all = false
+		}
+		return
+	}
+	// once: exactly one on paths that do not return on the serializer-error edge
+	serErrEdge := func(b *ssa.BasicBlock) bool {
+		if ser == nil {
+			return false
+		}
+		for _, m := range core.EdgeCmps(b) {
+			if m.Op != token.NEQ || !core.IsNilConst(m.Y) {
+				continue
+			}
+			if all, some := fromSer(m.X, nil, -1, core.IsNilConst); all && some {
+				return true
+			}
+		}
+		return false
+	}
+	min, max := core.DeepCount(p, eff, isReq, serErrEdge)
+	if min != 1 || max != 1 {
+		return false, fmt.Sprintf("the request is issued %d..%d times per evaluation on paths without a serializer error (must be exactly 1)", min, max)
+	}
 	args := req.Call.Args // (recv, ctx, header, method, url, [body, contentType])
 	// header = DefaultHeader.Clone()
-	hdr, okH := core.Resolve(args[2]).(*ssa.Call)
+	hv, _ := core.Up(args[2], rstack)
+	hdr, okH := hv.(*ssa.Call)
 	if !okH || core.StdCallee(&hdr.Call) != "net/http.(Header).Clone" || core.FieldKey(hdr.Call.Args[0]) != "SimpleAPIDef.DefaultHeader" {
 		return false, "the header passed to the request is not a fresh DefaultHeader.Clone(): the shared DefaultHeader map itself is handed to the request, so interceptors/Content-Type additions accumulate in it and leak into later requests"
 	}
 	// method = captured method parameter of g
-	mv := capt(core.Path(args[3]))
 	okM := false
+	mv := toG(args[3], rstack)
 	for _, prm := range g.Params {
 		if prm.Name() == "method" && mv == ssa.Value(prm) {
 			okM = true
@@ -313,78 +351,46 @@ func c17effect(p *core.Prog, g, perCall, eff, fold *ssa.Function, doNew map[stri
 		return false, "the HTTP method passed to the request is not the constructor's method parameter"
 	}
 	// url = fold(relativeURL, pathParam)
-	u, okU := core.Resolve(args[4]).(*ssa.Call)
+	uv, ustack := core.Up(args[4], rstack)
+	u, okU := uv.(*ssa.Call)
 	if !okU || fold == nil || core.Callee(&u.Call) != fold {
 		return false, "the URL passed to the request is not the result of the path-template substitution"
 	}
 	relOK, ppOK := false, false
+	rel := toG(u.Call.Args[1], ustack)
 	for _, prm := range g.Params {
-		if prm.Name() == "relativeURL" && capt(core.Path(u.Call.Args[1])) == ssa.Value(prm) {
+		if prm.Name() == "relativeURL" && rel == ssa.Value(prm) {
 			relOK = true
 		}
 	}
-	if capturedBinding(perCall, eff, core.Path(u.Call.Args[2])) == ssa.Value(perCall.Params[0]) {
+	if pv, pst := core.Up(u.Call.Args[2], ustack); len(pst) == 0 && capturedBinding(perCall, eff, core.Path(pv)) == ssa.Value(perCall.Params[0]) {
 		ppOK = true
 	}
 	if !relOK || !ppOK {
 		return false, "the template substitution is not applied to (relativeURL, pathParam) of this API call"
 	}
 	if withBody {
-		// body reader = phi(nil, serializer result #0)
-		okB := false
-		switch b := args[5].(type) {
-		case *ssa.Phi:
-			okB = true
-			for _, e := range b.Edges {
-				if core.IsNilConst(e) {
-					continue
-				}
-				ex, isE := e.(*ssa.Extract)
-				if !isE || ser == nil || ex.Tuple != ssa.Value(ser) || ex.Index != 0 {
-					okB = false
-				}
-			}
-		case *ssa.Extract:
-			okB = ser != nil && b.Tuple == ssa.Value(ser) && b.Index == 0
-		}
-		if !okB || ser == nil {
+		// body reader = nil or the serializer's first result
+		if all, some := fromSer(args[5], rstack, 0, core.IsNilConst); !all || !some || ser == nil {
 			return false, "the request body is not the serializer's output for the given body"
 		}
 		// serializer is applied to the captured body parameter of the per-call function
-		bodyArg := core.Unwrap(ser.Call.Args[0])
-		if capturedBinding(perCall, eff, core.Path(bodyArg)) != ssa.Value(perCall.Params[1]) {
+		if bv, bst := core.Up(core.Unwrap(ser.Call.Args[0]), sstack); len(bst) != 0 || capturedBinding(perCall, eff, core.Path(core.Unwrap(bv))) != ssa.Value(perCall.Params[1]) {
 			return false, "the serializer is not applied to the body given to this API call"
 		}
-		// serializer value is the constructor's parameter
-		okS := false
-		for _, prm := range g.Params {
-			if strings.Contains(strings.ToLower(prm.Name()), "serializer") && capt(core.Path(ser.Call.Value)) == ssa.Value(prm) {
-				okS = true
-			}
-		}
-		if !okS {
-			return false, "the serializer used is not the one the constructor was given"
-		}
 		// content type: the constructor's parameter, or the serializer's second result (multipart)
-		ct := args[6]
 		okCT := false
-		if cv := capt(core.Path(ct)); cv != nil {
+		if cv := toG(args[6], rstack); cv != nil {
 			for _, prm := range g.Params {
 				if prm.Name() == "contentType" && cv == ssa.Value(prm) {
 					okCT = true
 				}
 			}
 		}
-		if phi, isPhi := ct.(*ssa.Phi); isPhi {
-			okCT = true
-			for _, e := range phi.Edges {
-				if s, isS := strConst(e); isS && s == "" {
-					continue
-				}
-				ex, isE := e.(*ssa.Extract)
-				if !isE || ex.Tuple != ssa.Value(ser) || ex.Index != 1 {
-					okCT = false
-				}
+		if !okCT {
+			isEmpty := func(v ssa.Value) bool { s, isS := strConst(v); return isS && s == "" }
+			if all, some := fromSer(args[6], rstack, 1, isEmpty); all && some {
+				okCT = true
 			}
 		}
 		if !okCT {
@@ -392,27 +398,25 @@ func c17effect(p *core.Prog, g, perCall, eff, fold *ssa.Function, doNew map[stri
 		}
 		// serializer error edge returns a response with Err set, before any request
 		okErr := false
-		core.Instrs(eff, func(ins ssa.Instruction) {
-			if st, isS := ins.(*ssa.Store); isS && core.FieldKey(st.Addr) == "ResponseWithError.Err" {
-				if ex, isE := core.NonNilSource(st.Val).(*ssa.Extract); isE && ex.Tuple == ssa.Value(ser) && serErrEdge(st.Block()) {
+		for _, f := range core.DeepFind(p, eff, func(ins ssa.Instruction) bool {
+			st, isS := ins.(*ssa.Store)
+			return isS && core.FieldKey(st.Addr) == "ResponseWithError.Err"
+		}) {
+			st := f.Ins.(*ssa.Store)
+			all, some := fromSer(st.Val, f.Stack, -1, core.IsNilConst)
+			if !all || !some {
+				continue
+			}
+			// the store (or the helper call leading to it) sits on the serializer-error edge of the effect
+			if serErrEdge(st.Block()) {
+				okErr = true
+			}
+			for _, sc := range f.Stack {
+				if serErrEdge(sc.Block()) {
 					okErr = true
 				}
 			}
-			// or through a helper that builds the failure response from the error it is given
-			if call, isC := ins.(*ssa.Call); isC && serErrEdge(call.Block()) {
-				if h := core.Callee(&call.Call); h != nil && p.InRepo(h) {
-					for i, a := range call.Call.Args {
-						if ex, isE := core.NonNilSource(a).(*ssa.Extract); isE && ex.Tuple == ssa.Value(ser) && i < len(h.Params) {
-							core.Instrs(h, func(i2 ssa.Instruction) {
-								if st, isS := i2.(*ssa.Store); isS && core.FieldKey(st.Addr) == "ResponseWithError.Err" && st.Val == ssa.Value(h.Params[i]) {
-									okErr = true
-								}
-							})
-						}
-					}
-				}
-			}
-		})
+		}
 		if !okErr {
 			return false, "a serializer error is not returned as Err on the response"
 		}
@@ -422,44 +426,36 @@ func c17effect(p *core.Prog, g, perCall, eff, fold *ssa.Function, doNew map[stri
 
 // c17decodeGuard: decodeResponseBody is called only where response.Err == nil is known.
 func c17decodeGuard(p *core.Prog, eff *ssa.Function) (bool, string) {
-	n := 0
-	ok := true
-	check := func(f *ssa.Function) {
-		core.Instrs(f, func(ins ssa.Instruction) {
-			call, isC := ins.(*ssa.Call)
-			if !isC {
-				return
-			}
-			if g := core.Callee(&call.Call); g != nil && core.FuncName(g) == "network.decodeResponseBody" {
-				n++
-				guarded := false
-				for _, m := range core.EdgeCmps(call.Block()) {
-					if m.Op == token.EQL && core.IsNilConst(m.Y) && core.FieldKey(m.X) == "ResponseWithError.Err" {
-						guarded = true
-					}
-				}
-				if !guarded {
-					ok = false
-				}
-			}
-		})
-	}
-	check(eff)
-	if n == 0 {
-		// the guard and the decode may have been extracted together into a helper
-		core.Instrs(eff, func(ins ssa.Instruction) {
-			if call, isC := ins.(*ssa.Call); isC {
-				if g := core.Callee(&call.Call); g != nil && p.InRepo(g) && g.Signature.Recv() == nil && core.FuncName(g) != "network.decodeResponseBody" {
-					check(g)
-				}
-			}
-		})
-	}
-	if n == 0 {
+	found := core.DeepFind(p, eff, func(ins ssa.Instruction) bool {
+		call, isC := ins.(*ssa.Call)
+		if !isC {
+			return false
+		}
+		g := core.Callee(&call.Call)
+		return g != nil && core.FuncName(g) == "network.decodeResponseBody"
+	})
+	if len(found) == 0 {
 		return false, "the effect never decodes the response body into the target"
 	}
-	if !ok {
-		return false, "the response body is decoded without knowing Err == nil: Response is nil after a transport failure and reading its Body panics"
+	errNil := func(b *ssa.BasicBlock) bool {
+		for _, m := range core.EdgeCmps(b) {
+			if m.Op == token.EQL && core.IsNilConst(m.Y) && core.FieldKey(m.X) == "ResponseWithError.Err" {
+				return true
+			}
+		}
+		return false
+	}
+	for _, f := range found {
+		// the guard may sit next to the decode or at any call on the way to it
+		guarded := errNil(f.Ins.Block())
+		for _, s := range f.Stack {
+			if errNil(s.Block()) {
+				guarded = true
+			}
+		}
+		if !guarded {
+			return false, "the response body is decoded without knowing Err == nil: Response is nil after a transport failure and reading its Body panics"
+		}
 	}
 	return true, "decode only on the Err == nil edge"
 }
